@@ -68,6 +68,15 @@ pub struct Req {
     pub id: u32,
     pub key: u32,
 }
+/// A key type whose hash says very little (all keys collide) while equality is exact: a legal Hash / Eq pair;
+/// tables keyed by it must still tell the keys apart.
+#[derive(Clone, Debug, PartialEq, Eq, PartialOrd, Ord)]
+pub struct CKey(pub u32);
+impl std::hash::Hash for CKey {
+    fn hash<H: std::hash::Hasher>(&self, state: &mut H) {
+        7u8.hash(state)
+    }
+}
 #[derive(Clone, Debug, PartialEq, Eq)]
 pub struct Resp {
     pub serial: u64,
